@@ -84,35 +84,40 @@ class TermCx:
     def local(self, l):
         if l in self.memo:
             return self.memo[l]
-        if 1 <= l <= self.fn.arg_count:
-            if self.argsub is not None and l in self.argsub:
-                return self.argsub[l]
-            t = ("arg", l)
-            self.memo[l] = t
-            return t
+        is_arg = 1 <= l <= self.fn.arg_count
         if l in self.busy:
             return ("loopvar", self.fn.key, l)
         self.busy.add(l)
         ds = self.fn.defs().get(l, [])
         whole = [d for d in ds if d[0] in ("assign", "call")]
         terms = []
+        if is_arg:
+            if self.argsub is not None and l in self.argsub:
+                terms.append(self.argsub[l])
+            else:
+                terms.append(("arg", l))
         for d in whole:
             if d[0] == "assign":
                 terms.append(self.rvalue(d[3], (self.fn.key, d[1], d[2])))
             else:
                 terms.append(self.call(d[2], (self.fn.key, d[1])))
         partial = [d for d in ds if d[0] in ("partial", "partialcall")]
-        if partial and len(whole) <= 1:
-            # a value built field by field (or a struct with an overwritten field)
+        if partial and len(terms) <= 1:
+            # a value built field by field, or a struct with an overwritten field; reads of the value inside the
+            # update expressions see the value before the update
+            base = terms[0] if terms else ("uninit",)
+            self.memo[l] = base
             upd = []
             for d in partial:
                 if d[0] == "partial":
                     s = d[3]
+                    if any(e == "*" for e in s["place"]["p"]) and self.fn.local_ty(l).startswith(("&", "*")):
+                        continue  # write through a pointer: tracked at the pointee (mutations)
                     upd.append((proj_key(s["place"]["p"]), self.rvalue(s["rv"], (self.fn.key, d[1], d[2]))))
                 else:
                     upd.append((proj_key(d[2]["dest"]["p"]), self.call(d[2], (self.fn.key, d[1]))))
-            base = terms[0] if terms else ("uninit",)
-            t = ("updated", base, tuple(upd))
+            del self.memo[l]
+            t = ("updated", base, tuple(upd)) if upd else base
         elif len(terms) == 1:
             t = terms[0]
         elif not terms:
